@@ -320,7 +320,44 @@ theorem C10_or_counterexample :
       rw [h1] at this
       simp at this
 
-/-- **`not` is ignored** (finding `not-ignored`): `(x <= 2).not()` over `x ∈ 0..5` posts
+/-- `CmpOp.neg` is the complementary comparison -/
+theorem CmpOp.holds_neg (op : CmpOp) (x y : Int) : op.neg.holds x y = !(op.holds x y) := by
+  cases op <;> simp only [CmpOp.neg, CmpOp.holds, bne, beq_iff_eq, Bool.not_not, Bool.not_eq_eq_eq_not,
+    decide_eq_true_eq, Bool.not_true, Bool.decide_eq_false] <;>
+    grind
+
+/-- **`Constraint::not` on a comparison** (after the repair 7500ca2 `fix: Constraint::not of a
+comparison is the complementary comparison`): the node that is built denotes the negation of the
+comparison, for every tree and operator; a double negation cancels. -/
+theorem C10_not_comparison (l r : Expr) (op : CmpOp) (a : Nat → Int) :
+    (Con.mkNot (.bin l op r)).eval a = (Con.not (.bin l op r)).eval a := by
+  simp only [Con.mkNot, Con.eval]
+  cases l.eval a with
+  | none => rfl
+  | some x =>
+    cases r.eval a with
+    | none => rfl
+    | some y => simp [CmpOp.holds_neg]
+
+theorem C10_not_not (c : Con) (a : Nat → Int) : (Con.mkNot (.not c)).eval a = (Con.not (.not c)).eval a := by
+  simp only [Con.mkNot, Con.eval]
+  cases c.eval a with
+  | none => rfl
+  | some b => simp
+
+/-- what `mkNot` leaves as a `Not` node: only negated `and`/`or` combinations -/
+theorem C10_mkNot_shape (c : Con) :
+    (∃ l op r, Con.mkNot c = .bin l op r) ∨ (∃ d, c = .not d ∧ Con.mkNot c = d) ∨
+    (Con.mkNot c = .not c ∧ ((∃ p q, c = .and p q) ∨ (∃ p q, c = .or p q))) := by
+  cases c with
+  | bin l op r => exact Or.inl ⟨l, op.neg, r, rfl⟩
+  | not d => exact Or.inr (Or.inl ⟨d, rfl, rfl⟩)
+  | and p q => exact Or.inr (Or.inr ⟨rfl, Or.inl ⟨p, q, rfl⟩⟩)
+  | or p q => exact Or.inr (Or.inr ⟨rfl, Or.inr ⟨p, q, rfl⟩⟩)
+
+/-- **a `Not` node is lowered as its content** (finding `not-ignored`; since 7500ca2 the fluent API
+builds such a node only around `and`/`or` combinations, `C10_mkNot_shape`; the witness below shows
+the lowering of the node itself on the smallest tree): `Not(x <= 2)` over `x ∈ 0..5` posts
 `x ≤ c` with the constant `c ∈ {2}`: the lowered model accepts `x = 1` (tree: false) and rejects
 `x = 4` (tree: true). -/
 theorem C10_not_counterexample :
